@@ -244,11 +244,20 @@ async def _scenario(loop, sc, k, intervention, after=None):
 
 
 def run_scenario(sc, k=None, intervention=None, after=None):
+    import os
+
     loop = ILoop()
     asyncio.set_event_loop(loop)
+    limit = float(os.environ.get("VERIF_WALL_LIMIT", "180"))
+    simnet._WATCHDOG["fired"] = 0
+    old = simnet._arm_watchdog(limit)
     try:
-        return loop.run_main(_scenario(loop, sc, k, intervention, after))
+        out = loop.run_main(_scenario(loop, sc, k, intervention, after))
+        if simnet._WATCHDOG["fired"]:
+            raise simnet.WallClockExceeded("the event loop was starved for %.0f s of wall-clock time during this scenario" % limit)
+        return out
     finally:
+        simnet._disarm_watchdog(old)
         try:
             pend = [t for t in asyncio.all_tasks(loop) if not t.done()]
             for t in pend:
